@@ -227,6 +227,47 @@ def changeTimes (cfg : Config α) : Nat → List (Peak α) → Tape α → Optio
     | some (peaks1, t1) => changeTimes cfg k peaks1 t1
 
 
+/-! ### `MovingPeaks.__init__` (`:115-180`): the initial peaks -/
+
+/-- `[x if uniform != 0 else uniform(lo, hi) for _ in range(n)]` (`:160-168`): a non-zero `uniform_*`
+parameter is used as is, otherwise one uniform draw per peak -/
+def initScalars (u : α) : Nat → Tape α → Option (List α × Tape α)
+  | n, t => if u < RealLike.ofNat 0 ∨ RealLike.ofNat 0 < u then some (List.replicate n u, t)
+            else popMany popUniform n t
+
+/-- `n` groups of `dim` draws -/
+def popGroups (pop : Tape α → Option (α × Tape α)) (dim : Nat) : Nat → Tape α → Option (List (List α) × Tape α)
+  | 0, t => some ([], t)
+  | n + 1, t =>
+    match popMany pop dim t with
+    | none => none
+    | some (g, t1) =>
+      match popGroups pop dim n t1 with
+      | none => none
+      | some (gs, t2) => some (g :: gs, t2)
+
+/-- The state built by `__init__` for the peak functions `fns` (one per peak: `pfunc` repeated, or the
+given list of the right length): all positions first (`dim` uniform draws per peak), then the heights,
+then the widths, then the last-change vectors (`random() - 0.5`, `dim` per peak) — the draw order of
+`:158-170`. -/
+def initPeaks (dim : Nat) (fns : List PFunc) (uniformHeight uniformWidth : α) (t : Tape α) :
+    Option (List (Peak α) × Tape α) :=
+  let n := fns.length
+  match popGroups popUniform dim n t with
+  | none => none
+  | some (poss, t1) =>
+    match initScalars uniformHeight n t1 with
+    | none => none
+    | some (hs, t2) =>
+      match initScalars uniformWidth n t2 with
+      | none => none
+      | some (ws, t3) =>
+        match popGroups popRandom dim n t3 with
+        | none => none
+        | some (lasts, t4) =>
+          some ((fns.zip (poss.zip (hs.zip (ws.zip lasts)))).map fun q =>
+            ⟨q.1, q.2.1, q.2.2.1, q.2.2.2.1, q.2.2.2.2.map fun r => r - half⟩, t4)
+
 /-! ### counted evaluation (`__call__(individual, count=True)`, `:209-244`) -/
 
 structure State (α : Type) where
